@@ -227,6 +227,22 @@ func run(ci any, r *mon.Rec) {
 				coils[i] = i == c.Len-1 || i == 0 || i == 256
 			}
 		}
+		packOne := func(coils []bool) {
+			var got []byte
+			if p, txt := mon.Catch(func() { got = packet.CoilsToBytes(coils) }); p {
+				r.Violate(c, "pack-panics", mon.Attrs{}, txt)
+				return
+			}
+			r.Eval(1)
+			if want := specref.PackCoils(coils); !bytes.Equal(got, want) {
+				r.Violate(c, "packing-differs", mon.Attrs{"over_256": len(coils) > 256, "runs": true}, fmt.Sprintf("%d coils (run-length structured): CoilsToBytes % x want % x", len(coils), head(got), head(want)))
+			}
+		}
+		if c.Len > 0 && c.Len <= 2100 {
+			for k := 0; k < 4; k++ {
+				packOne(libx.RunPattern(rng, c.Len))
+			}
+		}
 		var got []byte
 		if p, txt := mon.Catch(func() { got = packet.CoilsToBytes(coils) }); p {
 			r.Violate(c, "pack-panics", mon.Attrs{}, txt)
@@ -247,7 +263,9 @@ func run(ci any, r *mon.Rec) {
 func runReadback(c *Case, r *mon.Rec, fr specref.Framing, rng *rand.Rand) {
 	n := c.Len
 	pattern := make([]bool, n)
-	switch rng.Intn(4) {
+	switch rng.Intn(5) {
+	case 4:
+		pattern = libx.RunPattern(rng, n)
 	case 0:
 		for i := range pattern {
 			pattern[i] = i%3 == 0
